@@ -1,2 +1,50 @@
-(* C05 — batch authorization (statement file; theorems under construction). *)
-From Cedar Require Import Lang.Value Lang.Expr Impl.Eval Impl.Partial Impl.Batch.
+(* C05 — batch authorization equals brute-force authorization of every substitution.
+   do_batch / batch_authorize = model of x/exp/batch/batch.go (Impl/Batch.v).  Proofs: Proofs/BatchProofs.v.
+   Hypotheses (batch_hyps): clean store, well-formed request parts without ignore markers, clean policies, well-formed
+   marker-free variable values, and tmpl_ok: unknowns are whole request parts or record fields at any depth.
+   *_partial*: unknowns nested inside SETS are not covered by the theorem (no counterexample known; the correspondence run and the
+   brute-force oracle do cover them). *)
+From Coq Require Import List Bool.
+Import ListNotations.
+From Cedar Require Import Lang.Value Lang.Expr Impl.Eval Impl.Partial Impl.Batch Proofs.PartialProofs Proofs.BatchProofs.
+
+(* every substitution of the Cartesian product exactly once, in order, each with the result of the ordinary authorizer on the
+   ORIGINAL policies under the substituted request (request, values, decision, reason ids) *)
+Theorem C05_batch_is_bruteforce_partial : forall vars en ps, batch_hyps vars en ps ->
+  let '(rs, _, st) := do_batch false vars en [] ps None in
+  match st with
+  | BOk => map Some rs = map (brute en ps) (product vars)
+  | BInvalidPart => exists b, In b (product vars) /\ brute en ps b = None
+  | _ => False
+  end.
+Proof. exact do_batch_is_bruteforce. Qed.
+
+Theorem C05_once_each_partial : forall vars en ps, batch_hyps vars en ps ->
+  let '(rs, _, st) := do_batch false vars en [] ps None in
+  st = BOk -> List.length rs = List.length (product vars) /\ map br_values rs = product vars.
+Proof. exact batch_once_each. Qed.
+
+(* the callback fails on its (k+1)-th invocation: enumeration stops right there with that error *)
+Theorem C05_stops_on_failure_partial : forall vars en ps k, batch_hyps vars en ps ->
+  (forall b, In b (product vars) -> brute en ps b <> None) ->
+  (k < List.length (product vars))%nat ->
+  let '(full, _, _) := do_batch false vars en [] ps None in
+  let '(rs, _, st) := do_batch false vars en [] ps (Some k) in
+  st = BCallbackFailed /\ List.length rs = S k /\ rs = firstn (S k) full.
+Proof. exact batch_stops_on_failure. Qed.
+
+(* the context is cancelled during the k-th callback: no further callback is made *)
+Theorem C05_stops_on_cancel_partial : forall vars en ps k, batch_hyps vars en ps ->
+  (forall b, In b (product vars) -> brute en ps b <> None) ->
+  (k <= List.length (product vars))%nat ->
+  let '(full, _, _) := do_batch false vars en [] ps None in
+  let '(rs, bud, st) := do_batch true vars en [] ps (Some k) in
+  List.length rs = k /\ rs = firstn k full /\
+  ((k < List.length (product vars))%nat -> st = BCancelled) /\
+  (k = List.length (product vars) -> (0 < k)%nat -> st = BOk /\ bud = Some O).
+Proof. exact batch_stops_on_cancel. Qed.
+
+Print Assumptions C05_batch_is_bruteforce_partial.
+Print Assumptions C05_once_each_partial.
+Print Assumptions C05_stops_on_failure_partial.
+Print Assumptions C05_stops_on_cancel_partial.
